@@ -104,9 +104,9 @@ CHECKS.update({
 })
 
 CHECKS.update({
- "C16": ("other", "Partial proof + differential testing. Coq theorems (no axioms) cover every stage of from_string that follows the regular expression: every description / extension text (quotes, backslashes, escape look-alikes, any code point) is recovered from its quoted form; the whole extensions block (any number of X- items, single values and parenthesised lists incl. the empty list) parses back; OID lists and NAME lists parse back. NOT proved: that the one big regular expression of each description type splits the printed definition into the intended groups - that stage (and the whole round trip) is decided by running implementation and extracted model (the regexes are regenerated from the source on every run and executed by the backtracking matcher of Rx/Syntax.v) on generated definitions, judged by an independent RFC 4512 reference parser.",
-         OTHER_NOTE.replace("No Coq theorem about this property is closed yet in this commit", "The regex stage has no theorem"),
-         "print/parse round-trip oracle + reference parser + model/implementation correspondence; Coq theorems for the post-regex stages (qdstring, extensions, OID and name lists)"),
+ "C16": ("proof", "Coq theorems (no axioms), one per description type: for every object class / attribute type / DIT content rule whose fields are valid per RFC 4512 (numeric OID of two or more arcs, descriptor names, OID lists or single OIDs, optional non-empty description, extensions with distinct [a-zA-Z-_]+ keys and non-empty values incl. the empty value list, any flags, kind, usage, numeric-OID syntax with any non-negative length), str() succeeds and from_string() of that text returns the description field for field. The proof runs the backtracking matcher with captures through the pattern GENERATED FROM THE SOURCE on every run (Gen/Generated.v; a structured copy in Schema/Regex.v is proved equal to it by computation, so an edit of any fragment breaks the build) - greedy repetition, optional parts skipped by keyword mismatch, capture groups tracked to the slices the code reads - and then through the model of the field readers (strip/split, qdstring un-escaping, extension loop, NOIDLEN split, int()). The validity conditions are executable (Schema/WfDec.v, proved to imply the hypotheses) and are evaluated by the extracted model on every generated description: all must satisfy them. The tie of the Gallina model to the Python code is the differential correspondence (str and from_string, implementation vs extracted model) plus an independent RFC 4512 reference parser.",
+         "Python's sre engine is modelled by the continuation-passing backtracking matcher of Rx/Syntax.v (leftmost alternative first, greedy repeats, last capture wins); its agreement with CPython on these patterns is established by the correspondence only. Strings are sequences of code points (no lone surrogates).",
+         "machine-checked proof in Coq (stepping the backtracking matcher through the generated patterns; field-reader round trips) + executable validity conditions evaluated on generated descriptions + print/parse correspondence + reference parser"),
  "C19": ("other", "Pairs of session histories run interleaved and alone must give identical transcripts; custom control / filter / credential registration is exercised with distinct type sets per session, with a different class for a taken id and classes colliding with built-in ids. A Coq theorem states that in the model any interleaving of two sessions' calls gives each the outcomes and state it gets alone - true by construction of a pure model (no shared state), so it documents the model rather than the code: whether Python objects share state is what the experiment decides.",
          "Hidden shared state in the implementation (class attributes, module-level registries) cannot be exhibited by a pure Gallina model; custom-type registries are not modelled.",
          "interleaved-vs-isolated transcript comparison + registration oracle + two independent model instances; Coq theorem on the model's product structure"),
